@@ -649,7 +649,7 @@ func fetchConn(set []byte, offset, next int64, fv int16) []string {
 			if !m.Time.IsZero() {
 				ms = m.Time.UnixNano() / 1000000
 			}
-			xs = append(xs, canonRec(m.Offset, ms, m.Key, m.Value, m.Headers, true))
+			xs = append(xs, canonRec(m.Offset, ms, m.Key, m.Value, m.Headers, false)) // exact: null and empty are told apart since fix 4db07b4
 		}
 	})
 }
@@ -983,6 +983,36 @@ func patternBytes(n, seed int) []byte {
 }
 
 func digestOf(b []byte) string { return fmt.Sprintf("%d:%08x", len(b), crc32.ChecksumIEEE(b)) }
+
+// pagedSetCase: RecordSet.WriteTo (version 2, uncompressed) appended to a real page buffer that already holds `pre`
+// bytes; the result is the buffer content from 16 bytes before the record set to the end.
+func pagedSetCase(pre int, rs []rec) (string, string) {
+	op := fmt.Sprintf("pwset2 %d 0 0 %s", pre, recsArg(rs, false))
+	out := ""
+	res := guard2(func() {
+		pb := protocol.VerifNewPageBuffer()
+		defer pb.Unref()
+		prefix := make([]byte, pre)
+		for i := range prefix {
+			prefix[i] = byte(i % 251)
+		}
+		pb.Write(prefix)
+		set := protocol.RecordSet{Version: 2, Records: protocol.NewRecordReader(toProtoRecords(rs)...)}
+		if _, err := pb.WriteRecordSet(&set); err != nil {
+			out = "error"
+			return
+		}
+		from := pre - 16
+		if from < 0 {
+			from = 0
+		}
+		out = wb(pb.ReadAt(int(pb.Size())-from, int64(from)))
+	})
+	if res != "" {
+		return op, res
+	}
+	return op, out
+}
 
 // pbufCase: a random sequence of operations on a real pageBuffer; sizes and offsets gather around multiples of the
 // 64 KiB page size
@@ -1335,6 +1365,22 @@ func main() {
 			ops, res := pbufCase(r, 4+r.Intn(14))
 			emit("pbuf "+ops, res)
 		}
+		// the v2 writer's placeholders and back-patches laid across the page boundary: every start offset from
+		// 70 bytes before it to 2 after (so that each of the six WriteAt calls is split at least once), and far inside
+		m := 8
+		if thorough {
+			m = 73
+		}
+		for i := 0; i < m; i++ {
+			pre := 65536 - 70 + i
+			if !thorough {
+				pre = 65536 - 70 + r.Intn(73)
+			}
+			ops, res := pagedSetCase(pre, genRecs(r, 1+r.Intn(3), 0, true))
+			emit(ops, res)
+		}
+		ops, res := pagedSetCase(r.Intn(50), genRecs(r, 1+r.Intn(3), 0, true))
+		emit(ops, res)
 	}
 
 	// --- crc validation
@@ -1419,7 +1465,7 @@ func main() {
 			emit(fmt.Sprintf("wire fetch/client/%s/hidectl %s%s", desc, hexs, zs), canonList(fetchClient(bt.bytes, base)))
 			if !bt.ctl {
 				fv := []int16{2, 5, 10}[i%3]
-				emit(fmt.Sprintf("wire fetch/conn-v%d/%s/loose %s%s", fv, desc, hexs, zs), canonList(fetchConn(bt.bytes, base, bt.next, fv)))
+				emit(fmt.Sprintf("wire fetch/conn-v%d/%s/exact %s%s", fv, desc, hexs, zs), canonList(fetchConn(bt.bytes, base, bt.next, fv)))
 			}
 			// corrupt one entry: nothing of it may be surfaced by the Client.Fetch path
 			if i%2 == 0 {
